@@ -23,7 +23,7 @@ static RE_EXCLUSIVE_START_STATE_DECLARATION: LazyLock<Regex> =
     LazyLock::new(|| Regex::new(r"^%[xX][a-zA-Z0-9]*$").unwrap());
 // Documented in `Escape sequences` in lexcompatibility.m
 static RE_LEX_ESC_LITERAL: LazyLock<Regex> = LazyLock::new(|| {
-    Regex::new(r"^(([xuU]([[:xdigit:]]|\{))|[[:digit:]]|[afnrtv\\]|[pP]|[dDsSwW]|[ABz])").unwrap()
+    Regex::new(r"^(([xuU]([[:xdigit:]]|\{))|[0-7]|[afnrtv\\]|[pP]|[dDsSwW]|[ABz])").unwrap()
 });
 // Vertical line separators.
 static RE_LINE_SEP: LazyLock<Regex> =
